@@ -41,10 +41,11 @@ func (m *c11Mon) section(s *c11State, add int, yield bool) {
 // (1) mutual exclusion and no lost update with parallel nodes, in Pregel / DAG / Workflow (eager) mode
 func c11Parallel(mode int) {
 	ctx := context.Background()
-	vcfg("preempt", 2)
+	vcfg("preempt", 2+vtier())
 	vcfg("race", 1)
 	mon := &c11Mon{}
 	da, db, dp, dq := vsymInt("da"), vsymInt("db"), vsymInt("dp"), vsymInt("dq")
+	dc, extra := vsymInt("dc"), 0
 	body := func(key string, add int) *Lambda {
 		return InvokableLambda(func(ctx context.Context, in map[string]any) (map[string]any, error) {
 			err := ProcessState(ctx, func(ctx context.Context, s *c11State) error {
@@ -87,6 +88,12 @@ func c11Parallel(mode int) {
 		_ = g.AddEdge("a", "j")
 		_ = g.AddEdge("b", "j")
 		_ = g.AddEdge("j", END)
+		if vtier() > 0 { // thorough tier: a third parallel node with both handlers
+			_ = g.AddLambdaNode("c", body("c", dc), pre(dc), post(dc))
+			_ = g.AddEdge(START, "c")
+			_ = g.AddEdge("c", "j")
+			extra = 3 * dc
+		}
 		var opts []GraphCompileOption
 		if mode == 1 {
 			opts = append(opts, WithNodeTriggerMode(AllPredecessor))
@@ -109,7 +116,7 @@ func c11Parallel(mode int) {
 	vassert(rerr == nil, "run succeeds")
 	vquiesce()
 	vassert(mon.bad == "", mon.bad)
-	vassert(final == da+db+dp+dq, "state updates made by pre-handlers, post-handlers and ProcessState are never lost when nodes run in parallel")
+	vassert(final == da+db+dp+dq+extra, "state updates made by pre-handlers, post-handlers and ProcessState are never lost when nodes run in parallel")
 }
 
 func VerifC11ParPregel()   { c11Parallel(0) }
